@@ -5,6 +5,7 @@
   ./run --job <job-id> [-v]         run one job, print its obligations
   ./run --replay <file>             re-run the native replay recorded in a replay file
   ./run --list                      list properties / jobs
+  ./run --mutants [Cxx ...]         sensitivity self-test: known mutants (obligations/Cxx/mutants.json) must be caught
 
 Exit status: 0 = every obligation discharged (known findings are printed, not failed),
              1 = an obligation that is not a known finding failed (VIOLATION line printed),
@@ -643,6 +644,46 @@ def run_property(prop, tier, verbose=False):
     return 0
 
 
+def run_mutants(prop):
+    """Sensitivity self-test: every mutant of obligations/<Cxx>/mutants.json (one regex substitution in a scratch COPY of the
+    sources) must make the named job fail with an obligation matching 'expect'. Never touches /repo."""
+    import codecs
+    global REPO, SRC
+    mp = os.path.join(VERIF, "obligations", prop, "mutants.json")
+    if not os.path.exists(mp):
+        print("no mutants.json for", prop)
+        return 0
+    muts = json.load(open(mp))
+    missed = 0
+    save = (REPO, SRC)
+    for m in muts:
+        d = tempfile.mkdtemp(prefix="ksi-vp-mut-")
+        try:
+            shutil.copytree(os.path.join(save[0], "src"), os.path.join(d, "src"), ignore=shutil.ignore_patterns("*.o", "*.lo", "*.la", ".libs", ".deps"))
+            fp = os.path.join(d, "src", "ksi", m["file"])
+            txt = open(fp).read()
+            n = len(re.findall(m["old"], txt))
+            if n != 1:
+                print("MUTANT-STALE %s %s: pattern matches %d times" % (prop, m.get("name", m["old"][:40]), n))
+                missed += 1
+                continue
+            new = codecs.decode(m["new"], "unicode_escape")
+            open(fp, "w").write(re.sub(m["old"], lambda _m: new, txt, count=1))
+            REPO, SRC = d, os.path.join(d, "src", "ksi")
+            r = run_job(find_job(m["job"]), "quick")
+            hit = [f for f in r["failed"] if re.search(m.get("expect", "."), "%s %s" % (f["obligation"], f["description"]))]
+            ok = r["status"] == "fail" and bool(hit)
+            print("%-7s %-28s job=%-28s %s" % ("CAUGHT" if ok else "MISSED", m.get("name", ""), m["job"],
+                                              (hit[0]["obligation"] + ": " + hit[0]["description"][:70]) if hit else (r.get("error") or r["status"])))
+            if not ok:
+                missed += 1
+        finally:
+            REPO, SRC = save
+            shutil.rmtree(d, ignore_errors=True)
+    print("mutants %s: %d/%d caught" % (prop, len(muts) - missed, len(muts)))
+    return 0 if missed == 0 else 1
+
+
 def main(argv):
     verbose = "-v" in argv
     argv = [a for a in argv if a != "-v"]
@@ -671,6 +712,11 @@ def main(argv):
             print(txt)
             print("replay outcome:", outcome)
             return 1 if outcome == "reproduced" else 0
+        if argv[0] == "--mutants":
+            rc = 0
+            for p in (argv[1:] or all_props()):
+                rc |= run_mutants(p)
+            return rc
         if argv[0] == "--selftest":
             for t in ("goto-cc", "goto-instrument", "cbmc"):
                 if shutil.which(t) is None:
